@@ -88,13 +88,38 @@ func genC20OptTime(t *rapid.T, label string) *int64 {
 	return nil
 }
 
-func genC20(t *rapid.T) CaseC20 {
-	var c CaseC20
+func genC20(t *rapid.T) (c CaseC20) {
 	c.Zone = rapid.SampledFrom([]string{"UTC", "America/New_York", "Asia/Kathmandu", "fixed"}).Draw(t, "zone")
 	n := rapid.IntRange(0, 8).Draw(t, "numTrips")
 	if rapid.IntRange(0, 24).Draw(t, "sizeClass") == 0 {
-		n = rapid.SampledFrom([]int{17, 33, 70, 130, 260, 520}).Draw(t, "manyTrips")
+		n = rapid.SampledFrom([]int{17, 33, 70, 130, 260, 520, 1025, 1030, 2050, 2100, 4100, 4101}).Draw(t, "manyTrips")
 	}
+	total := n
+	if n > 600 {
+		n = rapid.IntRange(1, 8).Draw(t, "templates") // thousands of trips: a few generated ones repeated under distinct UIDs
+	}
+	defer func() {
+		short := func(s string) string {
+			if len(s) > 300 {
+				return s[:300]
+			}
+			return s
+		}
+		for i := n; i < total; i++ {
+			tr := c.Trips[i%n]
+			tr.UID = short(tr.UID) + fmt.Sprint(i)
+			tr.TripID, tr.RouteID, tr.VehicleID = short(tr.TripID), short(tr.RouteID), short(tr.VehicleID)
+			tr.StopTimes = append([]C20StopTime(nil), tr.StopTimes...)
+			for k := range tr.StopTimes {
+				tr.StopTimes[k].StopID = short(tr.StopTimes[k].StopID)
+				if tr.StopTimes[k].Track != nil {
+					v := short(*tr.StopTimes[k].Track)
+					tr.StopTimes[k].Track = &v
+				}
+			}
+			c.Trips = append(c.Trips, tr)
+		}
+	}()
 	for i := 0; i < n; i++ {
 		var tr C20Trip
 		tr.UID = genC20String(t, "uid")
@@ -330,6 +355,12 @@ func c20Classify(c CaseC20) (classes []string, nontrivial bool) {
 	if len(c.Trips) >= 2 {
 		classes = append(classes, "multi-trip")
 	}
+	for _, n := range []int{4097, 1025, 257, 17} {
+		if len(c.Trips) >= n {
+			classes = append(classes, fmt.Sprintf("trips>=%d", n))
+			break
+		}
+	}
 	if counts[0] && len(c.Trips) > 0 {
 		classes = append(classes, "trip-without-stop-times")
 	}
@@ -346,7 +377,12 @@ func TestC20(t *testing.T) {
 		classes, nt := c20Classify(c)
 		c20Rec.Eval(classes...)
 		if nt {
-			c20Rec.NontrivialCase(vt.Fingerprint(c), func() any { return c })
+			c20Rec.NontrivialCase(vt.Fingerprint(c), func() any {
+				if len(c.Trips) > 12 {
+					return map[string]any{"zone": c.Zone, "trips_total": len(c.Trips), "first_trips": c.Trips[:3]}
+				}
+				return c
+			})
 		}
 		vt.Run(t, c20Rec, c, checkC20)
 	})
